@@ -252,6 +252,7 @@ func c17AnnoList(srcs []hmSrc) []string {
 }
 
 func runC17(c *h.Ctx) {
+	defer c17RawBodyComplex(c)
 	defer c17RespOptions(c)
 	c.Run("request", c.N(6000, 200000), func(cs *h.Case) {
 		types := c17Types()
@@ -1024,7 +1025,7 @@ func runC17(c *h.Ctx) {
 func c17RespOptions(c *h.Ctx) {
 	c.Run("response-options", c.N(2500, 80000), func(cs *h.Case) {
 		types := []*gen.Type{{T: tref.STRING}, {T: tref.I32}, {T: tref.I64}, {T: tref.BOOL}, {T: tref.STRING}, {T: tref.I16},
-			{T: tref.LIST, Elem: &gen.Type{T: tref.STRING}}, {T: tref.LIST, Elem: &gen.Type{T: tref.I64}}}
+			{T: tref.LIST, Elem: &gen.Type{T: tref.STRING}}, {T: tref.LIST, Elem: &gen.Type{T: tref.I64}}, {T: tref.STRUCT, S: c17Inner}}
 		rootS := &gen.StructT{Name: "Resp"}
 		var fs []hmField
 		used := map[int16]bool{}
@@ -1042,11 +1043,11 @@ func c17RespOptions(c *h.Ctx) {
 			for k := []int{0, 1, 1, 2, 2, 3}[cs.R.Intn(6)]; k > 0; k-- {
 				kind := []string{"query", "path", "form", "body", "header", "header", "cookie", "http_code", "raw_body"}[cs.R.Intn(9)]
 				switch {
-				case kind == "cookie" && t.T == tref.LIST:
+				case kind == "cookie" && (t.T == tref.LIST || t.T == tref.STRUCT):
 					kind = "header"
 				case kind == "http_code" && (status || t.T != tref.I32):
 					kind = "header"
-				case kind == "raw_body" && (rawBody || t.T != tref.STRING):
+				case kind == "raw_body" && (rawBody || (t.T != tref.STRING && t.T != tref.STRUCT)):
 					kind = "header"
 				}
 				if seen[kind] {
@@ -1068,7 +1069,7 @@ func c17RespOptions(c *h.Ctx) {
 			rootS.Fields = append(rootS.Fields, f)
 			fs = append(fs, hf)
 		}
-		sc := &gen.Schema{Structs: []*gen.StructT{rootS}, Root: rootS}
+		sc := &gen.Schema{Structs: []*gen.StructT{c17Inner, rootS}, Root: rootS}
 		cs.Info("idl", sc.IDL())
 		desc, _, err := ParseRoot(sc, thrift.NewDefaultOptions())
 		if err != nil {
@@ -1168,6 +1169,17 @@ func c17RespOptions(c *h.Ctx) {
 					return strings.Join(ps, ",")
 				}
 				return "[" + strings.Join(ps, ",") + "]"
+			case tref.STRUCT:
+				// the nested struct as a JSON object (c17Inner: a string, b i32), members in wire order
+				var ps []string
+				for _, f := range v.Fs {
+					if f.V.T == tref.STRING {
+						ps = append(ps, jsonQuote(c17Inner.Field(f.ID).Name)+":"+jsonQuote(string(f.V.S)))
+					} else {
+						ps = append(ps, jsonQuote(c17Inner.Field(f.ID).Name)+":"+strconv.FormatInt(f.V.I, 10))
+					}
+				}
+				return "{" + strings.Join(ps, ",") + "}"
 			}
 			return strconv.FormatInt(v.I, 10)
 		}
@@ -1227,6 +1239,12 @@ func c17RespOptions(c *h.Ctx) {
 						got = []string{string(bb)}
 					}
 				}
+				if e.v.T == tref.STRUCT && o.UseKitexHttpEncoding {
+					want = "" // Go's %v rendering of the decoded struct: only its delivery is asserted
+					if len(got) == 1 {
+						got[0] = ""
+					}
+				}
 				if len(got) != 1 || got[0] != want {
 					cs.Viol("hm:respopt:sink-value:"+cls+":"+tref.TypeName(e.hf.f.T.T), "field", e.hf.f.Name, "sink", e.sink.kind, "got", fmt.Sprint(got), "want", want)
 					return
@@ -1234,6 +1252,9 @@ func c17RespOptions(c *h.Ctx) {
 				cs.Cover("respopt_" + e.sink.kind + "_delivered")
 				if e.sink != &e.hf.srcs[0] {
 					cs.Cover("respopt_later_annotation_delivered")
+				}
+				if e.v.T == tref.STRUCT && !o.UseKitexHttpEncoding {
+					cs.Cover("respopt_struct_json_encoded")
 				}
 				if e.v.T == tref.LIST {
 					if o.UseKitexHttpEncoding {
@@ -1246,6 +1267,100 @@ func c17RespOptions(c *h.Ctx) {
 		}
 		cs.Cover("respopt_ok")
 		cs.Distinct(fmt.Sprintf("ro-%d-%d-%s", ob, len(exps), shapeKey(msg)[:min(len(shapeKey(msg)), 14)]))
+	})
+}
+
+// c17RawBodyComplex: api.raw_body on struct- and map-typed request fields: the whole JSON body is parsed as the
+// field's value (the root struct skips the members it does not declare).
+func c17RawBodyComplex(c *h.Ctx) {
+	c.Run("raw-body-complex", c.N(1200, 30000), func(cs *h.Case) {
+		inS := &gen.StructT{Name: "In", Fields: []*gen.FieldT{
+			{ID: 1, Name: "a", T: &gen.Type{T: tref.STRING}, Req: gen.ReqOptional},
+			{ID: 2, Name: "b", T: &gen.Type{T: tref.I32}, Req: gen.ReqOptional},
+			{ID: 3, Name: "l", T: &gen.Type{T: tref.LIST, Elem: &gen.Type{T: tref.STRING}}, Req: gen.ReqOptional},
+		}}
+		var bt *gen.Type
+		if cs.R.Bool() {
+			bt = &gen.Type{T: tref.STRUCT, S: inS}
+		} else {
+			bt = &gen.Type{T: tref.MAP, Key: &gen.Type{T: tref.STRING}, Elem: &gen.Type{T: tref.STRING}}
+		}
+		id := int16(1 + cs.R.Intn(20))
+		rootS := &gen.StructT{Name: "Req", Fields: []*gen.FieldT{
+			{ID: id, Name: "payload", T: bt, Req: cs.R.Intn(3), Annos: []string{`api.raw_body=""`}},
+			{ID: id + 1, Name: "qfield", T: &gen.Type{T: tref.STRING}, Req: gen.ReqOptional, Annos: []string{`api.query="q"`}},
+		}}
+		sc := &gen.Schema{Structs: []*gen.StructT{inS, rootS}, Root: rootS}
+		cs.Info("idl", sc.IDL())
+		desc, _, err := ParseRoot(sc, thrift.NewDefaultOptions())
+		if err != nil {
+			cs.Viol("hm:parse-idl", "err", err)
+			return
+		}
+		var v *tref.Val
+		if bt.T == tref.STRUCT {
+			v = tref.Struct()
+			if cs.R.Chance(80) {
+				v.Fs = append(v.Fs, tref.Field{ID: 1, V: tref.Str(c17Word(cs.R, true))})
+			}
+			if cs.R.Chance(80) {
+				v.Fs = append(v.Fs, tref.Field{ID: 2, V: tref.Int32(int32(cs.R.Intn(100000)))})
+			}
+			if cs.R.Chance(50) {
+				l := &tref.Val{T: tref.LIST, ET: tref.STRING}
+				for k := cs.R.Intn(4); k > 0; k-- {
+					l.L = append(l.L, tref.Str(c17Word(cs.R, true)))
+				}
+				v.Fs = append(v.Fs, tref.Field{ID: 3, V: l})
+			}
+		} else {
+			v = c17Val(cs.R, bt, "json", false)
+			for _, k := range v.K {
+				if string(k.S) == "qfield" || string(k.S) == "payload" {
+					return // a body member named like a root field is a body-fallback source of that field
+				}
+			}
+		}
+		body := RenderJSON(cs.R, v, bt, JSpell{WS: cs.R.Intn(2)}, JOpts{})
+		want := tref.Struct(tref.Field{ID: id, V: v})
+		u := "http://verif.example/rb"
+		if cs.R.Bool() {
+			w := c17Word(cs.R, false)
+			u += "?q=" + url.QueryEscape(w)
+			want.Fs = append(want.Fs, tref.Field{ID: id + 1, V: tref.Str(w)})
+		}
+		sr, err := stdhttp.NewRequest("POST", u, bytes.NewReader([]byte(body)))
+		if err != nil {
+			return
+		}
+		sr.Header.Set("Content-Type", "application/json")
+		req, err := dhttp.NewHTTPRequestFromStdReq(sr)
+		if err != nil {
+			cs.Viol("hm:request-build", "err", err)
+			return
+		}
+		cs.Info("request", fmt.Sprintf("url=%s body=%s", u, body))
+		o := conv.Options{EnableHttpMapping: true, ReadHttpValueFallback: cs.R.Bool()}
+		ctx := context.WithValue(context.Background(), conv.CtxKeyHTTPRequest, req)
+		cv := j2t.NewBinaryConv(o)
+		out, err := cv.Do(ctx, desc, []byte(body))
+		cls := tref.TypeName(bt.T)
+		if err != nil {
+			cs.Viol("hm:rawbody:error-on-domain:"+cls, "err", err)
+			return
+		}
+		got, derr := tref.Decode(out, tref.STRUCT)
+		if derr != nil {
+			cs.Viol("hm:rawbody:malformed-output", "decode-error", derr, "out", out)
+			return
+		}
+		if !tref.EqualUnordered(got, want) {
+			cs.Viol("hm:rawbody:value:"+cls, "got", got.String(), "want", want.String())
+			return
+		}
+		cs.Cover("rawbody_complex_ok")
+		cs.Cover("rawbody_complex_ok_" + cls)
+		cs.Distinct(fmt.Sprintf("rb-%s-%s", cls, shapeKey(v)[:min(len(shapeKey(v)), 14)]))
 	})
 }
 
